@@ -17,7 +17,18 @@ pub const S_NEWPREFIX: u8 = 32;
 /// as above but the treasury is given under the *old* prefix (must be refused)
 pub const S_OLDPREFIX_TREASURY: u8 = 64;
 
+/// the protocol section keeps the staked-asset denom (only channel, minimum and oracle change)
+pub const S_KEEP_DENOM: u8 = 128;
+
 pub const NEW_PREFIX: &str = "cosmos";
+
+pub fn new_denom(sections: u8) -> String {
+    if sections & S_KEEP_DENOM != 0 {
+        addr::NATIVE_DENOM.to_string()
+    } else {
+        format!("ibc/{}", "A".repeat(64))
+    }
+}
 
 pub fn update_msg(who: &Who, sections: u8, input: &mut dyn FnMut(&str) -> Uint128) -> ExecuteMsg {
     let native = if sections & S_NATIVE != 0 {
@@ -37,7 +48,7 @@ pub fn update_msg(who: &Who, sections: u8, input: &mut dyn FnMut(&str) -> Uint12
     let protocol = if sections & S_PROTOCOL != 0 {
         Some(UnsafeProtocolChainConfig {
             account_address_prefix: if new_prefix { NEW_PREFIX.to_string() } else { who.pp.clone() },
-            ibc_token_denom: format!("ibc/{}", "A".repeat(64)),
+            ibc_token_denom: new_denom(sections),
             ibc_channel_id: "channel-9".into(),
             minimum_liquid_stake_amount: input("ucmin"),
             oracle_address: if new_prefix { None } else { Some(who.c32.clone()) },
@@ -89,7 +100,7 @@ pub fn check_update(cx: &Ctx, s: &StepOut, sections: u8) {
             f,
             "C14:protocol section replaced by exactly the supplied values",
             p.account_address_prefix == if new_prefix { NEW_PREFIX } else { who.pp.as_str() }
-                && p.ibc_token_denom == format!("ibc/{}", "A".repeat(64))
+                && p.ibc_token_denom == new_denom(sections)
                 && p.ibc_channel_id == "channel-9"
                 && p.oracle_address.as_ref().map(|a| a.to_string()) == if new_prefix { None } else { Some(who.c32.clone()) },
         );
